@@ -23,6 +23,9 @@ pub fn verif_root() -> String {
     std::env::var("VERIF_ROOT").unwrap_or_else(|_| "/verif".to_string())
 }
 pub const MAX_THREADS: usize = 16;
+/// Stack size of the worker threads (large structs such as packet buffers and demo writers live on the
+/// stack; instrumented builds need much more than the 2 MiB default).
+pub const WORKER_STACK: usize = 256 << 20;
 
 #[derive(Copy, Clone, PartialEq, Eq, Debug)]
 pub enum Tier {
@@ -561,7 +564,7 @@ impl Ctx {
                 let make_strategy = &make_strategy;
                 let start = self.start;
                 let seed = mix_seed(self.seed, self.id, section, w);
-                scope.spawn(move || {
+                std::thread::Builder::new().stack_size(WORKER_STACK).spawn_scoped(scope, move || {
                     let mut seed_bytes = [0u8; 32];
                     for i in 0..4 {
                         seed_bytes[i * 8..i * 8 + 8]
@@ -641,7 +644,7 @@ impl Ctx {
                         }
                     };
                     results.lock().unwrap().push((w, local.into_inner(), failure));
-                });
+                }).expect("spawn worker thread");
             }
         });
         let mut results = results.into_inner().unwrap();
@@ -743,7 +746,7 @@ impl Ctx {
                 let (next, min_fail, evals, nts, fail_msg, run_one) =
                     (&next, &min_fail, &evals, &nts, &fail_msg, &run_one);
                 let start = self.start;
-                scope.spawn(move || {
+                std::thread::Builder::new().stack_size(WORKER_STACK).spawn_scoped(scope, move || {
                     let slot = &WD_SLOTS[w as usize % 64];
                     loop {
                         let begin = next.fetch_add(chunk, Ordering::Relaxed);
@@ -774,7 +777,7 @@ impl Ctx {
                         evals.fetch_add(e, Ordering::Relaxed);
                         nts.fetch_add(n, Ordering::Relaxed);
                     }
-                });
+                }).expect("spawn worker thread");
             }
         });
         let evals = evals.into_inner();
